@@ -53,7 +53,10 @@ DIMS = {
     # vary with altitude (squeezing the fill gases) and one species that is exactly zero in part of the atmosphere
     'T': [['steps'], ['dec'], ['iso', 1000.0]],
     'shape': ['vary', 'const'],
+    # correlated-k: the optical depths of different sources still add (only the molecules inside the absorption
+    # source are combined per quadrature point), so everything except the per-molecule product is demanded
 }
+# (set per case, not a product dimension: every insertion order once in correlated-k mode)
 
 
 def install(case):
@@ -62,7 +65,12 @@ def install(case):
     tabs = {}
     for i, mol in enumerate(MOLS):       # tables exist for all three; "species" decides which gases are present
         tabs[mol] = fx.table(3, 3, 4, 1.0, salt=('c03', mol), pattern='generic', per_wn=per) * mag * (0.5 ** i)
-        OpacityCache().add_opacity(fx.TinyOp(mol, WN, TG, PG, tabs[mol]))
+        if case.get('opmode', 'xsec') == 'xsec':
+            OpacityCache().add_opacity(fx.TinyOp(mol, WN, TG, PG, tabs[mol]))
+    if case.get('opmode', 'xsec') == 'ktables':
+        gm = np.array([0.3, 1.0, 3.0])
+        fx.install_ktables(dict((mol, t[..., None] * gm[None, None, None, :]) for mol, t in tabs.items()),
+                           [0.2, 0.5, 0.3], WN, TG, PG)
     cias = {}
     for j, pair in enumerate(['H2-H2', 'H2-He']):
         cias[pair] = fx.rng('c03cia', pair).uniform(0.5, 1.5, size=(3, 4)) * 1e-55 * (10 ** j)
@@ -138,6 +146,7 @@ def case_fn(case):
                 'contribution-list-restored', 'restore/' + where, now=[c.name for c in m.contribution_list], was=names0)
 
     res = {}
+    isk = case.get('opmode', 'xsec') == 'ktables'
     hist = case['hist']
     if hist.startswith('late-'):
         hist = hist[5:]
@@ -194,6 +203,8 @@ def case_fn(case):
             continue
         ncomp += len(comps)
         pc = np.prod([t for _, _, t in comps], axis=0) if comps else np.ones_like(T_model)
+        if isk and k == 'Absorption' and len(comps) > 1:
+            continue
         r.eq(T_c[k], pc, 'product-over-components', 'product/components/' + k, atol=1e-15,
              components=[n for n, _, _ in comps])
     # (iii) insertion-order independence: canonical (sorted) insertion order
@@ -225,6 +236,8 @@ def case_fn(case):
         nm = type(c).__name__
         if nm not in ('AbsorptionContribution', 'CIAContribution', 'RayleighContribution'):
             continue
+        if isk and nm == 'AbsorptionContribution':
+            continue            # per-point coefficients: C20 decides them
         seen = []
         total = np.zeros((N, len(grid)))
         for name, sig in c.prepare_each(mv, grid):
@@ -316,6 +329,8 @@ def explore(ctx):
     else:
         cases = core.product_cases(dims, core=['order', 'hist'], d=1) + \
             core.product_cases(small, core=['order', 'hist', 'mag', 'species'], d=3)
+    base = dict((k, v[0]) for k, v in DIMS.items() if k != 'order')
+    cases += [dict(base, order=o, opmode='ktables', hist=h) for o in dims['order'] for h in ('mcf', 'late-cfm')]
     seen, out = set(), []
     for c in cases:
         k = json.dumps(c, sort_keys=True)
